@@ -1017,8 +1017,12 @@ class Cap(object):
             st.cons.append(r.nul - v[2] - Lin.sym(ln))
             return Lin.sym(ln)
         if r.cap is not None and r.kind not in ("external",):
-            # no terminator known inside the buffer
-            self.fail(st, "unterminated", node, "string function reads %s, which holds no known terminator (%s)" % (r.name or r.kind, what), undecided=True)
+            # no terminator known inside the buffer.  A heap block or local array that nothing has written yet on this path
+            # holds indeterminate bytes: reading it as a string is a definite defect; otherwise the contents are unknown.
+            never_written = r.kind in ("heap", "local") and r.wver == 0
+            self.fail(st, "unterminated", node, "string function reads %s, which %s (%s)" % (
+                r.name or r.kind, "has not been written on this path: the bytes are indeterminate and nothing bounds the read"
+                if never_written else "holds no known terminator", what), undecided=not never_written)
             ln = fresh("sl")
             st.cons.append(Lin.sym(ln))
             st.imprecise.add(ln)
@@ -1245,7 +1249,14 @@ class Cap(object):
                 rr = Lin.sym(fresh("pr"))
                 # (a) everything fitted: returns the length written; (b) truncated: returns >= size, size-1 written;
                 # (c) error: negative result, buffer contents unspecified
+                # an output error is possible only for wide-character conversions (encoding error); a literal format without
+                # them cannot fail
+                fmt_i = 2 if cn in ("snprintf", "vsnprintf") else 4
+                fmt = X.strip(argn[fmt_i]) if len(argn) > fmt_i else None
+                can_fail = not (fmt is not None and fmt.get("k") == "str" and not re.search(r"%[-+ #0-9.*]*(l[sc]|S|C)", fmt.get("sv") or ""))
                 for case, cons_, ln in (("fit", [rr, size - 1 - rr], rr), ("trunc", [rr - size, size - 1], size - 1), ("err", [-rr - 1], None)):
+                    if case == "err" and not can_fail:
+                        continue
                     s2 = st.copy()
                     s2.cons += cons_
                     if not feasible(s2.cons):
@@ -1271,8 +1282,8 @@ class Cap(object):
             return [(st, I(Lin.sym(fresh("pr"))))]
         if cn == "fgets":
             if iv(1) is not None:
+                s2 = st.copy()            # the NULL return: nothing is stored into the buffer
                 self.access(st, n, A[0], iv(1), True, "fgets buffer")
-                s2 = st.copy()
                 # success: a terminated string shorter than the size
                 if A[0][0] == "p":
                     r = st.regions.get(A[0][1])
